@@ -2,7 +2,7 @@
    Which children the walkers descend into is read off the source on every run. *)
 From Coq Require Import String List Bool NArith.
 From OP Require Import Base.Str Base.Check Base.ParserTypes Base.Res Base.Json
-                       Model.Leaf Model.Eval Model.CheckRules Spec.Graph Proofs.CheckRulesProofs.
+                       Model.Leaf Model.Eval Model.CheckRules Model.Load Model.Validator Spec.Graph Proofs.CheckRulesProofs.
 Import ListNotations.
 
 (* the undefined-reference walk reports a rule exactly when some reference anywhere in its
@@ -27,6 +27,27 @@ Theorem C13_clean_terminates (w : world) (cur : option str) (n : str) (c : check
   eval (fuel_for (w_rules w)) w cur c <> OutOfFuel.
 Proof. apply clean_terminates. Qed.
 Print Assumptions C13_clean_terminates.
+
+(* the validator succeeds exactly when the policy file exists, validation reports nothing, every
+   file rule is registered by the service and no file rule is wholly unparseable *)
+Theorem C13_validator_rc (cf : lconf) (fs : fsys) :
+  validate cf fs = true <->
+  exists f, fs_main fs = Some f /\
+    let st := load_rules cf init_state fs false in
+    check_rules (e_rules st) false = true /\
+    forall n c, In (n, c) (e_file_rules st) ->
+      has_key n (map (fun d => (rd_name d, tt)) (c_registered cf)) = true /\
+      parse_failed (e_rules st) (pf_content f) n = false.
+Proof.
+  unfold validate. destruct (fs_main fs) as [f|]; [|split; [discriminate|intros (f & H & _); discriminate]].
+  cbv zeta. rewrite andb_true_iff, forallb_forall. split.
+  - intros [H1 H2]. exists f. split; [reflexivity|]. split; [exact H1|].
+    intros n c Hin. specialize (H2 (n, c) Hin). cbn [fst] in H2. apply andb_true_iff in H2.
+    destruct H2 as [Ha Hb]. split; [exact Ha|]. now apply negb_true_iff in Hb.
+  - intros (f' & E & H1 & H2). inversion E; subst f'. split; [exact H1|].
+    intros [n c] Hin. cbn [fst]. destruct (H2 n c Hin) as [Ha Hb]. now rewrite Ha, Hb.
+Qed.
+Print Assumptions C13_validator_rc.
 
 Example ex_C13 :
   let r k n := CLeaf (LCheck KRule (s "rule") n) in
